@@ -328,6 +328,70 @@ func minI(a, b int) int {
 	return b
 }
 
+// backlogWorld: more than 1024 asynchronous requests are pending (the poller's urgent queue is at
+// its threshold) when one goroutine issues AsyncWrite, AsyncWritev, AsyncWrite: issue order must hold.
+func backlogWorld(mode string) *world {
+	w := newWorld("out/" + mode + "/async-backlog-1024")
+	if mode == "ET" {
+		w.opts = append(w.opts, WithEdgeTriggeredIO(true))
+	}
+	const n = 1030
+	issued := false
+	var want []byte
+	cbs := 0
+	w.onTraffic = func(w *world, ci *connInfo) Action {
+		_, _ = ci.c.Discard(-1)
+		// the loop is busy in this callback until the user goroutine has queued everything
+		sched.BlockUntil(func() bool { return issued })
+		return None
+	}
+	w.script = func(w *world) {
+		done := 0
+		p0 := w.peerThread("peer", &done, func(p *peer) {
+			if !p.connect() {
+				return
+			}
+			p.send([]byte("g"))
+			sched.BlockUntil(func() bool { return issued })
+			p.recv(len(want))
+			p.close()
+		})
+		sched.Go("user", func() {
+			defer func() { done++ }()
+			sched.BlockUntil(func() bool { return len(w.conns) > 0 && w.conns[0].traffics > 0 })
+			c := w.conns[0].c
+			cb := func(Conn, error) error { cbs++; return nil }
+			for i := 0; i < n; i++ {
+				b := []byte{byte('a' + i%26)}
+				if c.AsyncWrite(b, cb) == nil {
+					want = append(want, b...)
+				}
+			}
+			if c.AsyncWritev([][]byte{[]byte("<V1"), []byte("V2>")}, cb) == nil {
+				want = append(want, []byte("<V1V2>")...)
+			}
+			if c.AsyncWrite([]byte("[LAST]"), cb) == nil {
+				want = append(want, []byte("[LAST]")...)
+			}
+			issued = true
+		})
+		w.ctl(&done, 2, func() {
+			if !bytes.Equal(p0.got, want) {
+				i := 0
+				for i < len(p0.got) && i < len(want) && p0.got[i] == want[i] {
+					i++
+				}
+				w.violate("out:async-order", "one goroutine issued %d AsyncWrite, one AsyncWritev and one AsyncWrite while the loop was busy; the peer received %d of %d bytes and they differ from issue order at offset %d", n, len(p0.got), len(want), i)
+			}
+			if cbs != n+2 {
+				w.violate("out:asynccb", "%d asynchronous writes were accepted, %d callbacks ran", n+2, cbs)
+			}
+		})
+	}
+	w.checks = append(w.checks, checkEnd)
+	return w
+}
+
 func outConfigs(thorough bool) []outCfg {
 	var out []outCfg
 	type prog struct {
@@ -382,6 +446,16 @@ func outSchedConfigs() ([]sched.Config, func(string) *sched.Config) {
 	var sel []sched.Config
 	for _, c := range outConfigs(thorough) {
 		sel = append(sel, mk(c))
+	}
+	for _, mode := range []string{"LT", "ET"} {
+		mode := mode
+		bl := sched.Config{Property: "C02", Name: "out/" + mode + "/async-backlog-1024", Bounds: []sched.Bound{{PB: 0}}, Horizon: 400000, Deadline: seqmc.Deadline(), DelayBounded: true,
+			New: func() sched.Scenario { return backlogWorld(mode) }}
+		if thorough {
+			bl.Bounds = append(bl.Bounds, sched.Bound{PB: 1})
+		}
+		all = append(all, bl)
+		sel = append(sel, bl)
 	}
 	return sel, func(name string) *sched.Config {
 		for i := range all {
